@@ -30,6 +30,29 @@ func TestBinary(t *testing.T) {
 					w.Targets[i].Deps = w.Targets[i].Deps[:1] // wider graphs
 				}
 			}
+			// a grouping target with two dependencies: when one of them changes and the other one's blob is gone, the group's
+			// own task has to re-run the latter under load_outputs=minimal - work that must stay inside the worker bound too
+			groupDep := -1
+			for gi := range w.Targets {
+				g := &w.Targets[gi]
+				if !g.NoCommand || gi < 2 {
+					continue
+				}
+				if len(w.DirectDeps(g)) < 2 {
+					for j := 0; j < gi; j++ {
+						if l := w.Targets[j].Label(); !contains(w.DirectDeps(g), l) && !w.Targets[j].NoCommand {
+							g.Deps = append(g.Deps, l)
+							break
+						}
+					}
+				}
+				for j := 0; j < gi; j++ {
+					if contains(w.DirectDeps(g), w.Targets[j].Label()) {
+						groupDep = j
+						break
+					}
+				}
+			}
 			h := histeng.History{WS: w}
 			h.Steps = append(h.Steps, histeng.Step{Kind: "build", Build: &histeng.BuildOpts{Patterns: []string{"//..."}}})
 			// a second, partially cached round
@@ -45,7 +68,11 @@ func TestBinary(t *testing.T) {
 				h.Steps = append(h.Steps, histeng.Step{Kind: "perturb-clean"}, histeng.Step{Kind: "bump-nonce", T: rapid.IntRange(0, 9).Draw(t, "t3")},
 					histeng.Step{Kind: "build", Build: &histeng.BuildOpts{Patterns: []string{"//..."}, LoadOutputs: "minimal"}})
 			case 2:
-				h.Steps = append(h.Steps, histeng.Step{Kind: "fault-wipe-cas"}, histeng.Step{Kind: "bump-nonce", T: rapid.IntRange(0, 9).Draw(t, "t3")},
+				t3 := rapid.IntRange(0, 9).Draw(t, "t3")
+				if groupDep >= 0 && rapid.Bool().Draw(t, "below-group") {
+					t3 = groupDep
+				}
+				h.Steps = append(h.Steps, histeng.Step{Kind: "fault-wipe-cas"}, histeng.Step{Kind: "bump-nonce", T: t3},
 					histeng.Step{Kind: "build", Build: &histeng.BuildOpts{Patterns: []string{"//..."}, LoadOutputs: "minimal"}})
 			}
 			return h
@@ -63,4 +90,13 @@ func TestBinary(t *testing.T) {
 			}
 			return res, err
 		}})
+}
+
+func contains(xs []string, x string) bool {
+	for _, y := range xs {
+		if y == x {
+			return true
+		}
+	}
+	return false
 }
